@@ -1588,4 +1588,4 @@ REQUIRED_PROBES = {
 }
 
 
-RULE_MORE = {'C12': ' Added in the build rounds: home-relative (~), `;`-carrying, backslash and high-byte spellings, paren-less require forms, eleven CLI routes that load carts, case-variant siblings, a directory literally named ~, a pico-8/carts tree below cwd, warm-up loads/builds earlier in the process (same-named cart elsewhere, a load failing half-way one level up, another HOME, an explicit --lua-path that must not outlive its build). Round 6: the cart required as a library by a program (name spelled in full, or a load path with a cart extension); the file the string aims at read first, legitimately, by a cart that lives next to it.', 'C20': ' Added in the build rounds: target names with extension-like parts, header versions 1-41 of included carts, a project inside the carts folder with same-named decoys above it, cart directory reached through a symbolic link, a load that fails inside an included cart first, a same-named cart loaded elsewhere first, debug verbosity left on, `p8tool listlua good cart`, and a build over the including cart. Round 6: a cart that includes itself (whole or by tab: its own code as written, no cycle); include lines inside real block comments and after lines that merely look like comment brackets (the splice is textual); files next to a missing target whose names differ only by letter case (the load must still fail).'}
+RULE_MORE = {'C12': ' Added in the build rounds: home-relative (~), `;`-carrying, backslash and high-byte spellings, paren-less require forms, eleven CLI routes that load carts, case-variant siblings, a directory literally named ~, a pico-8/carts tree below cwd, warm-up loads/builds earlier in the process (same-named cart elsewhere, a load failing half-way one level up, another HOME, an explicit --lua-path that must not outlive its build). Round 6: the cart required as a library by a program (name spelled in full, or a load path with a cart extension); the file the string aims at read first, legitimately, by a cart that lives next to it. Round 7: a symbolic link to a directory elsewhere inside every base (`shared/..` is the base lexically, another directory physically); a project directory with `?` in its name and siblings named as a substitution would give; the warm-up build resolves a package through a directory-carrying entry; a file opened under another name than the checked one is identified by (device, inode) against the files reachable inside the permitted roots.', 'C20': ' Added in the build rounds: target names with extension-like parts, header versions 1-41 of included carts, a project inside the carts folder with same-named decoys above it, cart directory reached through a symbolic link, a load that fails inside an included cart first, a same-named cart loaded elsewhere first, debug verbosity left on, `p8tool listlua good cart`, and a build over the including cart. Round 6: a cart that includes itself (whole or by tab: its own code as written, no cycle); include lines inside real block comments and after lines that merely look like comment brackets (the splice is textual); files next to a missing target whose names differ only by letter case (the load must still fail). Round 7: second loads after targets were rewritten with the same size and timestamps; target names with [, * and ? next to files the name would match as a shell pattern; include files that only make sense in context (they open a function, table, comment or long string that the cart closes on the next line); a deleted working directory.'}
